@@ -55,6 +55,20 @@ impl TypeConfig for VT {
     type PE = VPurge;
 }
 
+
+/// Build a Vec of exactly `n` (<= 4) elements WITHOUT `push`: a growing Vec (realloc path) makes CBMC's pointer
+/// reasoning explode when the Vec is dropped later (measured: out of memory vs 1 s).
+pub fn vec_exact<T>(n: usize, mut f: impl FnMut(usize) -> T) -> Vec<T> {
+    match n {
+        0 => Vec::new(),
+        1 => vec![f(0)],
+        2 => vec![f(0), f(1)],
+        3 => vec![f(0), f(1), f(2)],
+        4 => vec![f(0), f(1), f(2), f(3)],
+        _ => panic!("vec_exact: more than 4 elements"),
+    }
+}
+
 // ---------------------------------------------------------------------------------------------
 // VLog: reference Raft log over a fixed array (entries 1..=len, payloads dropped).
 // ---------------------------------------------------------------------------------------------
@@ -72,6 +86,11 @@ pub struct VLogInner {
     pub writes: u32,
     /// if false, any mutating call is a harness failure
     pub allow_write: bool,
+    /// if true, `get_entries_range` only RECORDS the requested range and returns an empty Vec (lets a harness decide
+    /// the caller's index arithmetic at full width without materialising entries)
+    pub record_only: bool,
+    pub ranges: [(u64, u64); 2],
+    pub nranges: usize,
 }
 #[derive(Debug)]
 pub struct VLog {
@@ -88,6 +107,9 @@ impl VLog {
                 save_calls: 0,
                 writes: 0,
                 allow_write: true,
+                record_only: false,
+                ranges: [(0, 0); 2],
+                nranges: 0,
             }),
         }
     }
@@ -174,15 +196,19 @@ impl RaftLog for VLog {
         None
     }
     fn get_entries_range(&self, range: RangeInclusive<u64>) -> Result<Vec<Entry>> {
-        let g = self.i.r();
-        let mut v = Vec::new();
-        let (s, e) = (*range.start(), *range.end());
-        let mut i = if s == 0 { 1 } else { s };
-        while i <= e && i <= g.len {
-            v.push(Entry { index: i, term: g.terms[(i - 1) as usize], payload: None });
-            i += 1;
+        if self.i.r().record_only {
+            let g = self.i.m();
+            assert!(g.nranges < 2, "VLog: more range reads than expected");
+            g.ranges[g.nranges] = (*range.start(), *range.end());
+            g.nranges += 1;
+            return Ok(Vec::new());
         }
-        Ok(v)
+        let g = self.i.r();
+        let (s, e) = (*range.start(), *range.end());
+        let lo = if s == 0 { 1 } else { s };
+        let hi = if e < g.len { e } else { g.len };
+        let n = if hi >= lo { (hi - lo + 1) as usize } else { 0 };
+        Ok(vec_exact(n, |k| Entry { index: lo + k as u64, term: g.terms[(lo + k as u64 - 1) as usize], payload: None }))
     }
     fn pre_allocate_raft_logs_next_index(&self) -> u64 {
         self.wr();
@@ -552,33 +578,23 @@ impl VMem {
 #[async_trait]
 impl Membership<VT> for VMem {
     async fn members(&self) -> Vec<NodeMeta> {
-        let mut v = Vec::new();
-        let mut i = 0;
-        while i < self.npeers {
-            v.push(self.meta(i));
-            i += 1;
-        }
-        v
+        vec_exact(self.npeers, |i| self.meta(i))
     }
     async fn replication_peers(&self) -> Vec<NodeMeta> {
-        let mut v = Vec::new();
-        let mut i = 0;
-        while i < self.npeers {
-            v.push(self.meta(i));
-            i += 1;
-        }
-        v
+        vec_exact(self.npeers, |i| self.meta(i))
     }
     async fn voters(&self) -> Vec<NodeMeta> {
-        let mut v = Vec::new();
+        let mut idx = [0usize; MAXPEERS];
+        let mut n = 0;
         let mut i = 0;
-        while i < self.npeers {
-            if (self.learner_mask >> i) & 1 == 0 {
-                v.push(self.meta(i));
+        while i < MAXPEERS {
+            if i < self.npeers && (self.learner_mask >> i) & 1 == 0 {
+                idx[n] = i;
+                n += 1;
             }
             i += 1;
         }
-        v
+        vec_exact(n, |k| self.meta(idx[k]))
     }
     async fn initial_cluster_size(&self) -> usize {
         self.initial_size
@@ -602,13 +618,7 @@ impl Membership<VT> for VMem {
     where
         F: Fn(i32) -> bool + Send + Sync + 'static,
     {
-        let mut v = Vec::new();
-        let mut i = 0;
-        while i < self.npeers {
-            v.push((i as u32) + 2);
-            i += 1;
-        }
-        v
+        vec_exact(self.npeers, |i| (i as u32) + 2)
     }
     async fn retrieve_cluster_membership_config(&self, _l: Option<u32>) -> ClusterMembership {
         ClusterMembership { version: 0, nodes: Vec::new(), current_leader_id: _l }
